@@ -131,6 +131,11 @@ SAME = [
         "match self._array:\n    case None:\n        m = self._msg()\n        raise ValueError(m)\n    case np.ndarray():\n        raise TypeError('2d')\n    case data:\n        return data",
         "match self._array:\n    case None:\n        raise ValueError\n    case np.ndarray() as d2:\n        raise TypeError(f'{d2.shape}')\n    case _ as d3:\n        return d3",
     ]),
+    ("walrus in the first operand of a test == assignment in front of it", [
+        "cur = self._array\nif cur is None:\n    raise ValueError()\nif isinstance(cur, np.ndarray):\n    raise TypeError()\nreturn cur",
+        "if (cur := self._array) is None:\n    raise ValueError('e')\nelif isinstance(cur, np.ndarray):\n    raise TypeError('t')\nreturn cur",
+        "if not ((cur := self._array) is not None):\n    raise ValueError\nif isinstance(cur, np.ndarray):\n    raise TypeError\nreturn cur",
+    ]),
     ("helper returning a value", [
         "if np.any(other < 0):\n    other = np.clip(other, 0, None)\n    warnings.warn('x')\nself._array = other.copy()",
         "other = _clip(other)\nself._array = other.copy()",
@@ -176,6 +181,12 @@ DIFFERENT = [
      "match self._array:\n    case xr.DataArray() as d:\n        return d\n    case _:\n        raise TypeError"),
     ("helper imported from a module in which `np` is something else is not read as if it were numpy",
      "_far_is_nd(other, cls_name='k')\nself._array = other", "_odd_is_nd(other, cls_name='k')\nself._array = other"),
+    ("walrus that is not evaluated first / not always",
+     "cur = self._array\nif other.flag and cur is None:\n    raise ValueError()\nreturn cur",
+     "if other.flag and (cur := self._array) is None:\n    raise ValueError()\nreturn cur"),
+    ("walrus-bound alias read after the state changed",
+     "if self._array is None:\n    raise ValueError()\nself.reset()\nreturn self._array",
+     "if (cur := self._array) is None:\n    raise ValueError()\nself.reset()\nreturn cur"),
     ("or is not and",
      "if self._a is None or other._a is None:\n    return 0\nreturn 1", "if self._a is None and other._a is None:\n    return 0\nreturn 1"),
 ]
